@@ -144,7 +144,12 @@ Definition pluck_one (h : heap) (thisv key : value) : option value :=
   | GmErr => None
   | GmNone => Some (VNil None)
   | GmCell c => Some (load h c)
-  | GmNative n => Some (VNative n None)
+  | GmNative n =>
+    (* only the object's own keys count; for another kind of receiver the prototype's method is kept *)
+    match thisv with
+    | VObj _ => Some (VNil None)
+    | _ => Some (VNative n None)
+    end
   | GmFresh v => Some v
   end.
 
